@@ -438,10 +438,81 @@ def run_concurrent(ctx, bname, chunks, disc, tasks, ryield):
     return tuple(sorted((op, r[0]) for _, op, r in results))
 
 
+class FailingInput(drivers.ScriptedInput):
+    """wsgi.input of a client that goes away: reading chunk number fail_at raises (what a server's socket file does)"""
+
+    def __init__(self, chunks, fail_at):
+        super().__init__(chunks)
+        self.fail_at = fail_at
+
+    def read(self, size=-1):
+        if self.i >= self.fail_at:
+            raise ConnectionResetError("verif: client went away")
+        if size is None or size < 0:
+            size = len(self.chunks[self.i]) - self.off  # deliver up to the next border only, so that the failure point is reached
+        return super().read(size)
+
+
+def wsgi_transport(ctx, rng):
+    """(a) the WSGI counterpart of a disconnect: wsgi.input.read() raises before the body is complete -> no accessor may hand
+    out a (truncated) value; (b) inputs that also offer readinto() (buffered readers) and bodies of several read sizes"""
+    import io
+
+    from baize import wsgi
+    for bname in ("json", "urlenc", "multipart", "text"):
+        body, ct = BODIES[bname]
+        for nchunks in (2, 3):
+            step = max(1, len(body) // nchunks)
+            chunks = [body[i:i + step] for i in range(0, len(body), step)]
+            for fail_at in range(0, len(chunks)):
+                for op in ("body", "stream", "json", "form"):
+                    if (op == "json" and "json" not in bname) or (op == "form" and bname not in ("urlenc", "multipart")):
+                        continue
+                    for declared in (True, False):
+                        req = drivers.Req(method="POST", headers=[("Content-Type", ct)] + ([("Content-Length", str(len(body)))] if declared else []))
+                        env = drivers.to_environ(req)
+                        env["wsgi.input"] = FailingInput(chunks, fail_at)
+                        r = wsgi.Request(env)
+                        case = {"iface": "wsgi", "body": bname, "chunk_lengths": [len(c) for c in chunks], "input_read_raises_at_chunk": fail_at, "op": op,
+                                "content_length_declared": declared}
+                        ctx.mon("disconnect-cases")
+                        try:
+                            v = r.body if op == "body" else b"".join(r.stream()) if op == "stream" else r.json if op == "json" else r.form
+                        except Exception:
+                            ctx.count("wsgi-input-failure-surfaced")
+                        else:
+                            ctx.violation(f"sequential|{op}|value-despite-failing-input|wsgi", case, repr(v)[:120])
+                        ctx.case(("wsgi-fail", bname, nchunks, fail_at, op, declared))
+    for size in (65536, 65537, 70_000, 131072, 200_001):
+        body = bytes((i * 7 + (i >> 9)) & 0xFF for i in range(size))
+        for kind in ("buffered-reader", "bytesio"):
+            for op in ("body", "stream", "stream-small"):
+                req = drivers.Req(method="POST", headers=[("Content-Type", "application/octet-stream"), ("Content-Length", str(size))])
+                env = drivers.to_environ(req)
+                env["wsgi.input"] = io.BufferedReader(io.BytesIO(body)) if kind == "buffered-reader" else io.BytesIO(body)
+                r = wsgi.Request(env)
+                case = {"iface": "wsgi", "body": f"{size} bytes", "wsgi.input": kind, "op": op}
+                ctx.mon("sequential-model")
+                try:
+                    if op == "body":
+                        got = r.body
+                    else:
+                        pieces = list(r.stream() if op == "stream" else r.stream(4096))
+                        got = b"".join(bytes(p) for p in pieces)  # joined only after the stream is exhausted: every piece must still hold its own bytes
+                except Exception as e:
+                    ctx.violation(f"sequential|{op}|exception-{type(e).__name__}|large-body|wsgi", case, repr(e)[:200])
+                    continue
+                if got != body:
+                    ctx.violation(f"sequential|{op}|body-differs|large-body|wsgi", case, f"{len(got)} bytes, first difference at {next((i for i, (a, b) in enumerate(zip(got, body)) if a != b), min(len(got), len(body)))}")
+                ctx.case(("wsgi-large", size, kind, op))
+
+
 def run(ctx):
     full = not ctx.quick
     maxlen = 3 if ctx.quick else 4
     idx = 0
+    if ctx.shard == 0:
+        wsgi_transport(ctx, None)
     for bname, (body, ct) in BODIES.items():
         for chunks in chunkings(body, full):
             for n in range(1, maxlen + 1):
